@@ -93,6 +93,9 @@ class Alignment(object):
             else:
                 self.pairs.append(Pair(b, r, 'name', b.name, r.name, 'import-name'))
             if b.name != '*':
+                if '.' in b.name and (b.asname is None) != (r.asname is None):
+                    # `import a.b` binds the root package a, `import a.b as x` binds the submodule: not a renaming
+                    raise AlignError(('structure', 'dotted-import-changes-what-it-binds'), '%s as %s -> as %s' % (b.name, b.asname, r.asname))
                 bb = b.asname if b.asname is not None else b.name.split('.')[0]
                 rb = r.asname if r.asname is not None else r.name.split('.')[0]
                 self.pairs.append(Pair(b, r, 'bound', bb, rb, 'bind'))
